@@ -18,7 +18,34 @@ Check C17_invocation_shapes :
     Forall (fun inv => shape ws p inv /\ nthN (a_commands tabs) (fst (fst inv)) <> None) (r_log r).
 Print Assumptions C17_invocation_shapes.
 
-(** On the clean top-level domain -- no within-word expressions, every command prints lines without blanks that
+(** /repo HEAD ([Repaired]: candidates = text before the first tab via printf, quoted operands, no last-word escape,
+    arrays reset per level): for EVERY environment and EVERY command line over tables without within-word
+    expressions, return code, COMPREPLY and the whole invocation log are what the specification prescribes -- exactly
+    the expected commands, in the expected places, with the expected arguments; candidates are the text before the
+    first tab of each line; a word is accepted by a command iff it equals a candidate.  No known-class hypothesis is
+    left (the prefix must be printable ASCII: printf %q). *)
+Theorem C17_repaired_toplevel_spec :
+  forall start tabs e ws p r esc,
+    spec_subword_free tabs -> e_ignore_case e = false -> printable_str p = true ->
+    spec_run start tabs e ws p = Ok (r, esc) ->
+    run_from Repaired start tabs e ws p = Ok r.
+Proof. exact run_from_spec_repaired. Qed.
+Check C17_repaired_toplevel_spec :
+  forall start tabs e ws p r esc,
+    spec_subword_free tabs -> e_ignore_case e = false -> printable_str p = true ->
+    spec_run start tabs e ws p = Ok (r, esc) ->
+    run_from Repaired start tabs e ws p = Ok r.
+Print Assumptions C17_repaired_toplevel_spec.
+
+(** ... and its candidates are the specification's, for every output text *)
+Theorem C17_repaired_candidates :
+  forall output, command_lines Repaired output = spec_candidates output.
+Proof. exact filter_lines_repaired_spec. Qed.
+Check C17_repaired_candidates :
+  forall output, command_lines Repaired output = spec_candidates output.
+Print Assumptions C17_repaired_candidates.
+
+(** The templates before the repair ([Pinned], [Fixed]): the same equality only on the clean top-level domain -- no within-word expressions, every command prints lines without blanks that
     are not option words of echo, glob-free complete words, printable prefix, and the situation of the last-word
     escape does not arise -- return code, COMPREPLY and the whole invocation log are what the specification
     prescribes: exactly the expected commands, in the expected places, with the expected arguments; candidates are
@@ -47,7 +74,7 @@ Check C17_clean_candidates :
   forall ls, Forall clean_line ls -> filter_lines (unlines ls) = ls /\ spec_candidates (unlines ls) = ls.
 Print Assumptions C17_clean_candidates.
 
-(** *** Refutations outside that domain (w1: cmd ({{{c1}}} x | {{{c2}}} y);  w2: cmd p:({{{c1}}})... next;) *)
+(** *** Refutations of the templates before the repair, outside that domain; each is followed by what [Repaired] does (w1: cmd ({{{c1}}} x | {{{c2}}} y);  w2: cmd p:({{{c1}}})... next;) *)
 Definition lf : string := String (ch 10) EmptyString.
 Definition env1 (o1 o2 : string) : env := mkenv default_wordbreaks [(0, o1); (1, o2)] false.
 Definition env2 (o : string) : env := mkenv default_wordbreaks [(0, o)] false.
@@ -129,6 +156,31 @@ Check C17_refuted_candidate_chain :
   run_from Pinned 0 w2 e ["p:x"] "" = Ok (mkresult 1 [] [(0, "x", "p:")])
   /\ run_from Fixed 0 w2 e ["p:x"] "" = Ok (mkresult 0 ["next "] [(0, "x", "p:")]).
 Print Assumptions C17_refuted_candidate_chain.
+
+(** On the same witnesses /repo HEAD does what the specification says (inside the word of w2: the empty candidate is
+    not consumed, the loop ends; the fully typed candidate "x" is accepted although "xy" extends it). *)
+Theorem C17_repaired_witnesses :
+  run_from Repaired 0 w1 (env1 ("my file" ++ lf ++ "plain" ++ lf) ("cb" ++ lf)) [] ""
+  = Ok (mkresult 0 ["my file"; "plain"; "cb"] [(0, "", ""); (1, "", "")])
+  /\ run_from Repaired 0 w1 (env1 ("-n" ++ lf ++ "a" ++ lf ++ "-e" ++ lf ++ "b" ++ lf) ("cb" ++ lf)) [] ""
+     = Ok (mkresult 0 ["-n"; "a"; "-e"; "b"; "cb"] [(0, "", ""); (1, "", "")])
+  /\ run_from Repaired 0 w1 (env1 ("ca" ++ lf) ("cb" ++ lf)) ["zz"] "" = Ok (mkresult 1 [] [(1, "", ""); (0, "", "")])
+  /\ run_from Repaired 0 w1 (env1 ("ca" ++ lf) ("cb" ++ lf)) ["ca"] "" = Ok (mkresult 0 ["x "] [(1, "", ""); (0, "", "")])
+  /\ run_from Repaired 0 w1 (env1 ("ca" ++ lf) ("cb" ++ lf)) ["*"; "y"] "" = Ok (mkresult 1 [] [(1, "", ""); (0, "", "")])
+  /\ run_from Repaired 0 w2 (env2 ("x" ++ lf ++ lf ++ "xy" ++ lf)) ["p:q"] "" = Ok (mkresult 1 [] [(0, "q", "p:")])
+  /\ run_from Repaired 0 w2 (env2 ("x" ++ lf ++ "xy" ++ lf)) ["p:x"] "" = Ok (mkresult 0 ["next "] [(0, "x", "p:")]).
+Proof. vm_compute. repeat split; reflexivity. Qed.
+Check C17_repaired_witnesses :
+  run_from Repaired 0 w1 (env1 ("my file" ++ lf ++ "plain" ++ lf) ("cb" ++ lf)) [] ""
+  = Ok (mkresult 0 ["my file"; "plain"; "cb"] [(0, "", ""); (1, "", "")])
+  /\ run_from Repaired 0 w1 (env1 ("-n" ++ lf ++ "a" ++ lf ++ "-e" ++ lf ++ "b" ++ lf) ("cb" ++ lf)) [] ""
+     = Ok (mkresult 0 ["-n"; "a"; "-e"; "b"; "cb"] [(0, "", ""); (1, "", "")])
+  /\ run_from Repaired 0 w1 (env1 ("ca" ++ lf) ("cb" ++ lf)) ["zz"] "" = Ok (mkresult 1 [] [(1, "", ""); (0, "", "")])
+  /\ run_from Repaired 0 w1 (env1 ("ca" ++ lf) ("cb" ++ lf)) ["ca"] "" = Ok (mkresult 0 ["x "] [(1, "", ""); (0, "", "")])
+  /\ run_from Repaired 0 w1 (env1 ("ca" ++ lf) ("cb" ++ lf)) ["*"; "y"] "" = Ok (mkresult 1 [] [(1, "", ""); (0, "", "")])
+  /\ run_from Repaired 0 w2 (env2 ("x" ++ lf ++ lf ++ "xy" ++ lf)) ["p:q"] "" = Ok (mkresult 1 [] [(0, "q", "p:")])
+  /\ run_from Repaired 0 w2 (env2 ("x" ++ lf ++ "xy" ++ lf)) ["p:x"] "" = Ok (mkresult 0 ["next "] [(0, "x", "p:")]).
+Print Assumptions C17_repaired_witnesses.
 
 (** Non-vacuity of C17_toplevel_spec: w1 with clean outputs is in the domain, the escape does not arise for the
     line [cb] + prefix "", and both sides compute the same non-trivial result. *)
